@@ -51,3 +51,14 @@ func VerifParseDurationSTLBytes(b []byte, framerate int) time.Duration {
 
 // VerifParseDurationSRT exposes parseDurationSRT
 func VerifParseDurationSRT(s string) (time.Duration, error) { return parseDurationSRT(s) }
+
+// VerifParseTextSRT exposes parseTextSrt with an explicit running style state
+func VerifParseTextSRT(line string, bold, italics, underline bool, color *string) (Line, bool, bool, bool, *string) {
+	sa := &StyleAttributes{SRTBold: bold, SRTItalics: italics, SRTUnderline: underline, SRTColor: color}
+	l := parseTextSrt(line, sa)
+	return l, sa.SRTBold, sa.SRTItalics, sa.SRTUnderline, sa.SRTColor
+}
+
+// VerifEscapeHTML / VerifUnescapeHTML expose the html replacers
+func VerifEscapeHTML(s string) string   { return escapeHTML(s) }
+func VerifUnescapeHTML(s string) string { return unescapeHTML(s) }
